@@ -288,7 +288,7 @@ Qed.
 Lemma quiet_den f : quiet f = true -> exists v, den f = IVal v.
 Proof.
   induction f as [r|p gt ph k IH|kd cs IH|kd done cs IH|f1 IH|p f1 IH] using fut_ind'; intros Q.
-  - destruct r; [eauto|discriminate].
+  - destruct r; [eexists; reflexivity|discriminate].
   - cbn [den]. apply IH, Q.
   - rewrite den_FAll. destruct (quiet_den_list cs IH Q []) as [vs ->]. eauto.
   - rewrite den_FSeq. destruct (quiet_den_list cs IH Q done) as [vs ->]. eauto.
@@ -372,4 +372,972 @@ Proof.
   - rewrite poll_FMapErr in Pf. destruct (poll g f1 n) as [[f2 n1] l1] eqn:P1.
     destruct (IH _ _ _ _ Q P1) as [Q' E].
     destruct f2 as [[v|p0]| | | | |]; try discriminate; injection Pf as <- <- <-; auto.
+Qed.
+
+(* ------------------------------------------------------- (b) the error list --- *)
+Definition rel_child (c c' : fut) : Prop :=
+  den c' = den c /\ race_free c' = true /\ (quiet c = true -> quiet c' = true).
+
+Lemma failsb_den c c' : den c' = den c -> failsb c' = failsb c.
+Proof. unfold failsb. now intros ->. Qed.
+
+Lemma den_list_F2 cs cs' : Forall2 rel_child cs cs' -> forall acc, den_list den cs' acc = den_list den cs acc.
+Proof.
+  induction 1 as [|c c' r r' (D & _) _ IH]; intros acc; [reflexivity|].
+  rewrite !den_list_cons, D. destruct (den c); [apply IH|reflexivity].
+Qed.
+
+Lemma rf_F2 cs cs' : Forall2 rel_child cs cs' -> forallb race_free cs' = true.
+Proof. induction 1 as [|c c' r r' (_ & R & _) _ IH]; [reflexivity|]. cbn. now rewrite R, IH. Qed.
+
+Lemma compat_F2 c c' r r' :
+  rel_child c c' -> Forall2 rel_child r r' -> forallb (compat c) r = true -> forallb (compat c') r' = true.
+Proof.
+  intros (Dc & _ & Qc). induction 1 as [|d d' r r' (Dd & _ & Qd) _ IH]; intros H; [reflexivity|].
+  cbn [forallb] in *. apply andb_prop in H as [Hd Hr]. rewrite (IH Hr), andb_true_r.
+  unfold compat in *. rewrite (failsb_den _ _ Dc), (failsb_den _ _ Dd).
+  apply andb_prop in Hd as [H1 H2]. apply andb_true_intro. split.
+  - destruct (failsb c); [|reflexivity]. cbn in *. auto.
+  - destruct (failsb d); [|reflexivity]. cbn in *. auto.
+Qed.
+
+Lemma pairwise_F2 cs cs' : Forall2 rel_child cs cs' -> pairwise cs = true -> pairwise cs' = true.
+Proof.
+  induction 1 as [|c c' r r' Hc Hr IH]; intros H; [reflexivity|].
+  cbn [pairwise] in *. apply andb_prop in H as [H1 H2].
+  now rewrite (compat_F2 _ _ _ _ Hc Hr H1), (IH H2).
+Qed.
+
+Lemma den_list_inr_fail cs : forall acc p, den_list den cs acc = inr p -> exists d, In d cs /\ failsb d = true.
+Proof.
+  induction cs as [|c r IH]; intros acc p H; [discriminate|].
+  rewrite den_list_cons in H. destruct (den c) as [v|q] eqn:D.
+  - destruct (IH _ _ H) as (d & I & F). exists d. split; [now right|exact F].
+  - exists c. split; [now left|]. unfold failsb. now rewrite D.
+Qed.
+
+Lemma flat_map_quiet cs : forallb quiet cs = true -> flat_map derrs cs = [].
+Proof.
+  induction cs as [|c r IH]; intros Q; [reflexivity|].
+  cbn [forallb] in Q. apply andb_prop in Q as [Qc Qr]. cbn [flat_map]. now rewrite (quiet_derrs _ Qc), (IH Qr).
+Qed.
+
+Lemma all_done_derrs cs vs : all_done cs = Some vs -> flat_map derrs cs = [].
+Proof. intros H. apply flat_map_quiet. eapply all_done_quiet, H. Qed.
+
+Definition rf_inv (g : option nat) (f : fut) : Prop :=
+  forall n f' n' l, race_free f = true -> poll g f n = (f', n', l) ->
+    race_free f' = true /\ den f' = den f /\ Permutation (errs_of l ++ derrs f') (derrs f).
+
+Lemma perm_4 {A} (a b c d : list A) : Permutation ((a ++ b) ++ c ++ d) ((a ++ c) ++ (b ++ d)).
+Proof.
+  rewrite <- !app_assoc. apply Permutation_app_head. rewrite !app_assoc. apply Permutation_app_tail.
+  apply Permutation_app_comm.
+Qed.
+
+Lemma walk_rf g cs :
+  Forall (rf_inv g) cs -> forallb race_free cs = true -> pairwise cs = true ->
+  forall n cs' e n' l, walk (poll g) cs n = (cs', e, n', l) ->
+    match e with
+    | Some p => (forall acc, den_list den cs acc = inr p) /\ Permutation (errs_of l) (flat_map derrs cs)
+    | None => Forall2 rel_child cs cs' /\ Permutation (errs_of l ++ flat_map derrs cs') (flat_map derrs cs)
+    end.
+Proof.
+  induction 1 as [|c r Hc Hr IH]; intros R PW n cs' e n' l W.
+  - cbn in W. injection W as <- <- <- <-. split; [constructor|constructor].
+  - cbn [forallb pairwise] in R, PW. apply andb_prop in R as [Rc Rr]. apply andb_prop in PW as [Cc PWr].
+    apply walk_cons_cases in W as (c' & n1 & l1 & Pc & [(p & -> & -> & -> & -> & ->)|(_ & r' & l2 & Wr & -> & ->)]);
+      destruct (Hc _ _ _ _ Rc Pc) as (R' & D & P1).
+    + (* the head fails now: every other child is quiet *)
+      cbn [den derrs] in D, P1. rewrite app_nil_r in P1.
+      assert (F : failsb c = true) by (unfold failsb; now rewrite <- D).
+      assert (Qr : forallb quiet r = true).
+      { apply forallb_forall. intros d Hd. rewrite forallb_forall in Cc. specialize (Cc d Hd).
+        unfold compat in Cc. rewrite F in Cc. cbn in Cc. now apply andb_prop in Cc as [? _]. }
+      split.
+      * intros acc. rewrite den_list_cons, <- D. reflexivity.
+      * cbn [flat_map]. now rewrite (flat_map_quiet _ Qr), app_nil_r.
+    + specialize (IH Rr PWr _ _ _ _ _ Wr). destruct e as [p|].
+      * destruct IH as [DL P2]. destruct (den_list_inr_fail r [] p (DL [])) as (d & Hd & Fd).
+        assert (Qc : quiet c = true).
+        { rewrite forallb_forall in Cc. specialize (Cc d Hd). unfold compat in Cc. rewrite Fd in Cc.
+          cbn in Cc. now apply andb_prop in Cc as [_ ?]. }
+        destruct (poll_quiet g c _ _ _ _ Qc Pc) as [_ E1]. destruct (quiet_den c Qc) as [v Dv].
+        split.
+        -- intros acc. rewrite den_list_cons, Dv. apply DL.
+        -- rewrite errs_of_app, E1. cbn [flat_map app]. now rewrite (quiet_derrs _ Qc).
+      * destruct IH as [F2 P2]. split.
+        -- constructor; [|exact F2]. repeat split; auto.
+           intros Qc. now destruct (poll_quiet g c _ _ _ _ Qc Pc).
+        -- rewrite errs_of_app. cbn [flat_map]. rewrite <- P1, <- P2. apply perm_4.
+Qed.
+
+Lemma seq_rf g kd cs :
+  Forall (rf_inv g) cs ->
+  forall done n f' n' l, rf_seq race_free cs = true -> seq (poll g) kd done cs n = (f', n', l) ->
+    race_free f' = true /\ den f' = den (FSeq kd done cs) /\
+    Permutation (errs_of l ++ derrs f') (derrs_seq den derrs cs).
+Proof.
+  induction 1 as [|c r Hc Hr IH]; intros done n f' n' l R W.
+  - cbn in W. injection W as <- <- <-. repeat split. constructor.
+  - cbn [rf_seq] in R. apply andb_prop in R as [Rc Rr].
+    apply seq_cons_cases in W as (c' & n1 & l1 & Pc & [(v & l2 & -> & Sr & ->)|[(p & -> & -> & -> & ->)|(_ & -> & -> & ->)]]);
+      destruct (Hc _ _ _ _ Rc Pc) as (R' & D & P1); rewrite den_FSeq, den_list_cons; cbn [derrs_seq].
+    + cbn [den derrs] in D, P1. rewrite app_nil_r in P1. rewrite <- D.
+      assert (F : failsb c = false) by (unfold failsb; now rewrite <- D). rewrite F in Rr.
+      destruct (IH _ _ _ _ _ Rr Sr) as (R2 & D2 & P2). rewrite den_FSeq in D2.
+      repeat split; [exact R2|exact D2|]. rewrite errs_of_app, <- app_assoc, <- P1, <- P2. reflexivity.
+    + cbn [den derrs] in D, P1. rewrite app_nil_r in P1. rewrite <- D.
+      repeat split. now rewrite !app_nil_r.
+    + cbn [race_free rf_seq derrs derrs_seq]. rewrite den_FSeq, den_list_cons, D, (failsb_den _ _ D), R', Rr.
+      repeat split. rewrite app_assoc, P1. reflexivity.
+Qed.
+
+Lemma poll_rf g : forall f, rf_inv g f.
+Proof.
+  induction f as [r|p gt ph k IH|kd cs IH|kd done cs IH|f1 IH|p f1 IH] using fut_ind'; intros n f' n' l R Pf.
+  - cbn in Pf. injection Pf as <- <- <-. repeat split. constructor.
+  - rewrite poll_FRes in Pf. cbn [race_free] in R. destruct ph as [|id].
+    + destruct gt.
+      * injection Pf as <- <- <-. repeat split; auto.
+      * destruct (poll g k n) as [[k' n1] l1] eqn:Pk. injection Pf as <- <- <-. exact (IH _ _ _ _ R Pk).
+    + destruct (opened g id).
+      * destruct (poll g k n) as [[k' n1] l1] eqn:Pk. injection Pf as <- <- <-. exact (IH _ _ _ _ R Pk).
+      * injection Pf as <- <- <-. repeat split; auto.
+  - rewrite poll_FAll in Pf. destruct (walk (poll g) cs n) as [[[cs' e] n1] l1] eqn:W.
+    cbn [race_free] in R. apply andb_prop in R as [Rc PW].
+    pose proof (walk_rf g cs IH Rc PW _ _ _ _ _ W) as HW. cbn [derrs]. rewrite den_FAll.
+    destruct e as [p|].
+    + destruct HW as [DL P1]. injection Pf as <- <- <-. rewrite (DL []). repeat split.
+      cbn [derrs]. now rewrite app_nil_r.
+    + destruct HW as [F2 P1]. rewrite <- (den_list_F2 _ _ F2).
+      destruct (all_done cs') as [vs|] eqn:AD; injection Pf as <- <- <-.
+      * rewrite (all_done_den _ _ [] AD). repeat split. cbn [derrs app].
+        now rewrite (all_done_derrs _ _ AD) in P1.
+      * cbn [race_free derrs]. rewrite den_FAll, (rf_F2 _ _ F2), (pairwise_F2 _ _ F2 PW). repeat split. exact P1.
+  - rewrite poll_FSeq in Pf. cbn [race_free] in R. cbn [derrs]. exact (seq_rf g kd cs IH _ _ _ _ _ R Pf).
+  - rewrite poll_FCatch in Pf. destruct (poll g f1 n) as [[f2 n1] l1] eqn:P1. cbn [race_free] in R.
+    destruct (IH _ _ _ _ R P1) as (R' & D & PM). cbn [den derrs]. rewrite <- D.
+    destruct f2 as [[v|p]| | | | |]; injection Pf as <- <- <-; cbn [race_free den derrs] in *;
+      try (repeat split; auto; rewrite app_assoc, PM; reflexivity).
+    + repeat split. now rewrite !app_nil_r in *.
+    + repeat split. rewrite app_nil_r in *. rewrite errs_of_app. cbn. now rewrite PM.
+  - rewrite poll_FMapErr in Pf. destruct (poll g f1 n) as [[f2 n1] l1] eqn:P1. cbn [race_free] in R.
+    destruct (IH _ _ _ _ R P1) as (R' & D & PM). cbn [den derrs]. rewrite <- D.
+    destruct f2 as [[v|p0]| | | | |]; injection Pf as <- <- <-; cbn [race_free den derrs] in *;
+      repeat split; auto.
+Qed.
+
+Lemma run_st_rf t s : forall f n l f' n' l',
+  race_free f = true -> den f = den t -> Permutation (errs_of l ++ derrs f) (derrs t) ->
+  run_st s (f, n, l) = (f', n', l') ->
+  race_free f' = true /\ den f' = den t /\ Permutation (errs_of l' ++ derrs f') (derrs t).
+Proof.
+  induction s as [|g s IH]; intros f n l f' n' l' R D P Run.
+  - cbn in Run. injection Run as <- <- <-. auto.
+  - cbn [run_st] in Run. destruct (poll (Some g) f n) as [[f1 n1] l1] eqn:P1.
+    destruct (poll_rf _ _ _ _ _ _ R P1) as (R1 & D1 & PM1).
+    apply (IH _ _ _ _ _ _ R1) in Run; [exact Run|congruence|].
+    rewrite errs_of_app, <- app_assoc, PM1. exact P.
+Qed.
+
+Lemma run_log_rf s t f n l :
+  race_free t = true -> run_log s t = (f, n, l) ->
+  race_free f = true /\ den f = den t /\ Permutation (errs_of l ++ derrs f) (derrs t).
+Proof.
+  unfold run_log, start. intros R Run. destruct (poll None t 0) as [[f0 n0] l0] eqn:P0.
+  destruct (poll_rf _ _ _ _ _ _ R P0) as (R0 & D0 & PM0).
+  exact (run_st_rf t s _ _ _ _ _ _ R0 D0 PM0 Run).
+Qed.
+
+(* (b): outside the race class, a completed run reports exactly the errors read off the tree *)
+Theorem run_errors s t r :
+  race_free t = true -> run s t = Some r -> Permutation (sr_errors r) (ref_errors t).
+Proof.
+  unfold run, resp_of, ref_errors. intros R. destruct (run_log s t) as [[f n] l] eqn:Run.
+  destruct (run_log_rf _ _ _ _ _ R Run) as (_ & D & PM).
+  destruct f as [[v|p]| | | | |]; try discriminate; intros E; injection E as <-; cbn [sr_errors];
+    cbn [den derrs] in D, PM; rewrite <- D, app_nil_r in *; cbn [app].
+  - exact PM.
+  - now constructor.
+Qed.
+
+Theorem errors_schedule_independent t s1 s2 r1 r2 :
+  race_free t = true -> run s1 t = Some r1 -> run s2 t = Some r2 ->
+  Permutation (sr_errors r1) (sr_errors r2).
+Proof.
+  intros R H1 H2. rewrite (run_errors _ _ _ R H1). symmetry. exact (run_errors _ _ _ R H2).
+Qed.
+
+(* ------------------------------------------- the all-ready run as reference --- *)
+Lemma map_ext_Forall {A B} (f g : A -> B) l : Forall (fun x => f x = g x) l -> map f l = map g l.
+Proof. induction 1; cbn; congruence. Qed.
+
+Lemma den_list_ungate cs : Forall (fun c => den (ungate c) = den c) cs ->
+  forall acc, den_list den (map ungate cs) acc = den_list den cs acc.
+Proof.
+  induction 1 as [|c r Hc Hr IH]; intros acc; [reflexivity|].
+  cbn [map]. rewrite !den_list_cons, Hc. destruct (den c); [apply IH|reflexivity].
+Qed.
+
+Lemma den_ungate f : den (ungate f) = den f.
+Proof.
+  induction f as [r|p gt ph k IH|kd cs IH|kd done cs IH|f1 IH|p f1 IH] using fut_ind'; cbn [ungate].
+  - reflexivity.
+  - cbn [den]. exact IH.
+  - now rewrite !den_FAll, (den_list_ungate _ IH).
+  - now rewrite !den_FSeq, (den_list_ungate _ IH).
+  - cbn [den]. now rewrite IH.
+  - cbn [den]. now rewrite IH.
+Qed.
+
+Lemma failsb_ungate f : failsb (ungate f) = failsb f.
+Proof. unfold failsb. now rewrite den_ungate. Qed.
+
+Lemma derrs_ungate f : derrs (ungate f) = derrs f.
+Proof.
+  induction f as [r|p gt ph k IH|kd cs IH|kd done cs IH|f1 IH|p f1 IH] using fut_ind'; cbn [ungate derrs].
+  - reflexivity.
+  - exact IH.
+  - induction IH as [|c r Hc Hr IHr]; [reflexivity|]. cbn [map flat_map]. now rewrite Hc, IHr.
+  - induction IH as [|c r Hc Hr IHr]; [reflexivity|]. cbn [map derrs_seq]. now rewrite Hc, den_ungate, IHr.
+  - now rewrite IH, den_ungate.
+  - exact IH.
+Qed.
+
+Lemma quiet_ungate f : quiet (ungate f) = quiet f.
+Proof.
+  induction f as [r|p gt ph k IH|kd cs IH|kd done cs IH|f1 IH|p f1 IH] using fut_ind'; cbn [ungate quiet]; auto.
+  - induction IH as [|c r Hc Hr IHr]; [reflexivity|]. cbn [map forallb]. now rewrite Hc, IHr.
+  - induction IH as [|c r Hc Hr IHr]; [reflexivity|]. cbn [map forallb]. now rewrite Hc, IHr.
+Qed.
+
+Lemma compat_ungate c d : compat (ungate c) (ungate d) = compat c d.
+Proof. unfold compat. now rewrite !failsb_ungate, !quiet_ungate. Qed.
+
+Lemma pairwise_ungate cs : pairwise (map ungate cs) = pairwise cs.
+Proof.
+  induction cs as [|c r IH]; [reflexivity|]. cbn [map pairwise]. rewrite IH. f_equal.
+  clear IH. induction r as [|d r IH]; [reflexivity|]. cbn [map forallb]. now rewrite compat_ungate, IH.
+Qed.
+
+Lemma race_free_ungate f : race_free (ungate f) = race_free f.
+Proof.
+  induction f as [r|p gt ph k IH|kd cs IH|kd done cs IH|f1 IH|p f1 IH] using fut_ind'; cbn [ungate race_free]; auto.
+  - rewrite pairwise_ungate. f_equal. induction IH as [|c r Hc Hr IHr]; [reflexivity|]. cbn [map forallb]. now rewrite Hc, IHr.
+  - induction IH as [|c r Hc Hr IHr]; [reflexivity|]. cbn [map rf_seq]. now rewrite Hc, failsb_ungate, IHr.
+Qed.
+
+(* a tree in which no resolver is gated and none has started completes in one poll *)
+Fixpoint ready_tree (f : fut) : bool :=
+  match f with
+  | FDone _ => true
+  | FRes _ gt ph k => negb gt && match ph with PNew => true | PWait _ => false end && ready_tree k
+  | FAll _ cs => forallb ready_tree cs
+  | FSeq _ _ cs => forallb ready_tree cs
+  | FCatch f1 => ready_tree f1
+  | FMapErr _ f1 => ready_tree f1
+  end.
+
+Definition ready_inv (g : option nat) (f : fut) : Prop :=
+  ready_tree f = true -> forall n, exists r l, poll g f n = (FDone r, n, l).
+
+Lemma walk_ready g cs :
+  Forall (ready_inv g) cs -> forallb ready_tree cs = true ->
+  forall n, exists cs' e l, walk (poll g) cs n = (cs', e, n, l) /\
+                            (e = None -> exists vs, all_done cs' = Some vs).
+Proof.
+  induction 1 as [|c r Hc Hr IH]; intros R n.
+  - exists [], None, []. split; [reflexivity|]. intros _. now exists [].
+  - cbn [forallb] in R. apply andb_prop in R as [Rc Rr]. destruct (Hc Rc n) as (rc & l1 & Pc).
+    rewrite walk_cons, Pc. destruct rc as [v|p].
+    + destruct (IH Rr n) as (r' & e & l2 & Wr & AD). rewrite Wr.
+      exists (FDone (IVal v) :: r'), e, (l1 ++ l2). split; [reflexivity|].
+      intros E. destruct (AD E) as [vs A]. exists (v :: vs). cbn [all_done]. now rewrite A.
+    + exists (FDone (IFail p) :: r), (Some p), l1. split; [reflexivity|discriminate].
+Qed.
+
+Lemma seq_ready g kd cs :
+  Forall (ready_inv g) cs -> forallb ready_tree cs = true ->
+  forall done n, exists r l, seq (poll g) kd done cs n = (FDone r, n, l).
+Proof.
+  induction 1 as [|c r Hc Hr IH]; intros R done n.
+  - cbn. eauto.
+  - cbn [forallb] in R. apply andb_prop in R as [Rc Rr]. destruct (Hc Rc n) as (rc & l1 & Pc).
+    rewrite seq_cons, Pc. destruct rc as [v|p].
+    + destruct (IH Rr (done ++ [v]) n) as (r2 & l2 & ->). eauto.
+    + eauto.
+Qed.
+
+Lemma poll_ready g : forall f, ready_inv g f.
+Proof.
+  induction f as [r|p gt ph k IH|kd cs IH|kd done cs IH|f1 IH|p f1 IH] using fut_ind'; intros R n.
+  - cbn. eauto.
+  - cbn [ready_tree] in R. apply andb_prop in R as [R1 Rk]. apply andb_prop in R1 as [Rg Rp].
+    destruct gt; [discriminate|]. destruct ph; [|discriminate].
+    rewrite poll_FRes. destruct (IH Rk n) as (r & l & ->). eauto.
+  - rewrite poll_FAll. destruct (walk_ready g cs IH R n) as (cs' & e & l & -> & AD).
+    destruct e as [p|]; [eauto|]. destruct (AD eq_refl) as [vs ->]. eauto.
+  - rewrite poll_FSeq. exact (seq_ready g kd cs IH R done n).
+  - rewrite poll_FCatch. destruct (IH R n) as (r & l & ->). destruct r; eauto.
+  - rewrite poll_FMapErr. destruct (IH R n) as (r & l & ->). destruct r; eauto.
+Qed.
+
+Theorem ready_run_completes t : ready_tree t = true -> exists r, run [] t = Some r.
+Proof.
+  intros R. unfold run, run_log, start. cbn [run_st]. destruct (poll_ready None t R 0%nat) as (r & l & ->).
+  cbn. destruct r; eauto.
+Qed.
+
+Lemma ready_ungate f : fresh f = true -> ready_tree (ungate f) = true.
+Proof.
+  induction f as [r|p gt ph k IH|kd cs IH|kd done cs IH|f1 IH|p f1 IH] using fut_ind'; cbn [ungate fresh ready_tree]; auto.
+  - destruct ph; [|discriminate]. cbn. exact IH.
+  - intros F. induction IH as [|c r Hc Hr IHr]; [reflexivity|]. cbn [forallb map] in *.
+    apply andb_prop in F as [Fc Fr]. now rewrite (Hc Fc), (IHr Fr).
+  - destruct done; [|discriminate]. intros F. induction IH as [|c r Hc Hr IHr]; [reflexivity|]. cbn [forallb map] in *.
+    apply andb_prop in F as [Fc Fr]. now rewrite (Hc Fc), (IHr Fr).
+Qed.
+
+(* every completed run of a race-free tree answers what the all-ready run answers *)
+Theorem same_as_ready_run t s r :
+  fresh t = true -> run s t = Some r ->
+  exists r0, run [] (ungate t) = Some r0 /\ sr_data r = sr_data r0 /\
+             (race_free t = true -> Permutation (sr_errors r) (sr_errors r0)).
+Proof.
+  intros F H. destruct (ready_run_completes _ (ready_ungate _ F)) as [r0 H0]. exists r0.
+  split; [exact H0|]. split.
+  - rewrite (run_data _ _ _ H), (run_data _ _ _ H0). unfold ref_data. now rewrite den_ungate.
+  - intros R. rewrite (run_errors _ _ _ R H).
+    assert (R0 : race_free (ungate t) = true) by now rewrite race_free_ungate.
+    rewrite (run_errors _ _ _ R0 H0). unfold ref_errors. now rewrite den_ungate, derrs_ungate.
+Qed.
+
+(* ------------------------------------------------ (c) serial mutation roots --- *)
+(* a poll logs only events of resolvers below the future, and the new state can
+   only log events the old one could *)
+Definition ev_inv (g : option nat) (f : fut) : Prop :=
+  forall n f' n' l, poll g f n = (f', n', l) ->
+    incl (evs_of l) (all_events f) /\ incl (all_events f') (all_events f).
+
+Lemma incl_app_app {A} (a b c d : list A) : incl a c -> incl b d -> incl (a ++ b) (c ++ d).
+Proof. intros H1 H2 x Hx. apply in_app_or in Hx as [Hx|Hx]; apply in_or_app; auto. Qed.
+
+Lemma walk_ev g cs :
+  Forall (ev_inv g) cs ->
+  forall n cs' e n' l, walk (poll g) cs n = (cs', e, n', l) ->
+    incl (evs_of l) (flat_map all_events cs) /\ incl (flat_map all_events cs') (flat_map all_events cs).
+Proof.
+  induction 1 as [|c r Hc Hr IH]; intros n cs' e n' l W.
+  - cbn in W. injection W as <- <- <- <-. split; apply incl_refl.
+  - apply walk_cons_cases in W as (c' & n1 & l1 & Pc & [(p & -> & -> & -> & -> & ->)|(_ & r' & l2 & Wr & -> & ->)]);
+      destruct (Hc _ _ _ _ Pc) as [E1 A1]; cbn [flat_map].
+    + split; [now apply incl_appl|]. apply incl_app_app; [exact A1|apply incl_refl].
+    + destruct (IH _ _ _ _ _ Wr) as [E2 A2]. rewrite evs_of_app. split; apply incl_app_app; assumption.
+Qed.
+
+Lemma seq_ev g kd cs :
+  Forall (ev_inv g) cs ->
+  forall done n f' n' l, seq (poll g) kd done cs n = (f', n', l) ->
+    incl (evs_of l) (flat_map all_events cs) /\ incl (all_events f') (flat_map all_events cs).
+Proof.
+  induction 1 as [|c r Hc Hr IH]; intros done n f' n' l W.
+  - cbn in W. injection W as <- <- <-. split; apply incl_refl.
+  - apply seq_cons_cases in W as (c' & n1 & l1 & Pc & [(v & l2 & -> & Sr & ->)|[(p & -> & -> & -> & ->)|(_ & -> & -> & ->)]]);
+      destruct (Hc _ _ _ _ Pc) as [E1 A1]; cbn [flat_map].
+    + destruct (IH _ _ _ _ _ Sr) as [E2 A2]. rewrite evs_of_app. split.
+      * apply incl_app_app; assumption.
+      * now apply incl_appr.
+    + split; [now apply incl_appl|]. cbn. intros x [].
+    + split; [now apply incl_appl|]. cbn [all_events flat_map]. apply incl_app_app; [exact A1|apply incl_refl].
+Qed.
+
+Lemma poll_ev g : forall f, ev_inv g f.
+Proof.
+  induction f as [r|p gt ph k IH|kd cs IH|kd done cs IH|f1 IH|p f1 IH] using fut_ind'; intros n f' n' l Pf.
+  - cbn in Pf. injection Pf as <- <- <-. split; apply incl_refl.
+  - rewrite poll_FRes in Pf. cbn [all_events]. destruct ph as [|id].
+    + destruct gt.
+      * injection Pf as <- <- <-. split; [|apply incl_refl]. cbn. intros x [<-|[]]. now left.
+      * destruct (poll g k n) as [[k' n1] l1] eqn:Pk. injection Pf as <- <- <-. destruct (IH _ _ _ _ Pk) as [E A].
+        split.
+        -- cbn. intros x [<-|[<-|Hx]]; [now left|right; now left|right; right; now apply E].
+        -- intros x Hx. right; right. now apply A.
+    + destruct (opened g id).
+      * destruct (poll g k n) as [[k' n1] l1] eqn:Pk. injection Pf as <- <- <-. destruct (IH _ _ _ _ Pk) as [E A].
+        split.
+        -- cbn. intros x [<-|Hx]; [right; now left|right; right; now apply E].
+        -- intros x Hx. right; right. now apply A.
+      * injection Pf as <- <- <-. split; [intros x []|apply incl_refl].
+  - rewrite poll_FAll in Pf. destruct (walk (poll g) cs n) as [[[cs' e] n1] l1] eqn:W.
+    destruct (walk_ev g cs IH _ _ _ _ _ W) as [E A]. cbn [all_events].
+    destruct e as [p|]; [|destruct (all_done cs')]; injection Pf as <- <- <-; split; auto; intros x [].
+  - rewrite poll_FSeq in Pf. exact (seq_ev g kd cs IH _ _ _ _ _ Pf).
+  - rewrite poll_FCatch in Pf. destruct (poll g f1 n) as [[f2 n1] l1] eqn:P1. destruct (IH _ _ _ _ P1) as [E A].
+    cbn [all_events].
+    destruct f2 as [[v|p]| | | | |]; injection Pf as <- <- <-; split; auto; try (intros x []).
+    rewrite evs_of_app. cbn. now rewrite app_nil_r.
+  - rewrite poll_FMapErr in Pf. destruct (poll g f1 n) as [[f2 n1] l1] eqn:P1. destruct (IH _ _ _ _ P1) as [E A].
+    cbn [all_events].
+    destruct f2 as [[v|p0]| | | | |]; injection Pf as <- <- <-; split; auto; intros x [].
+Qed.
+
+Lemma seg_prefix s ss X : incl X s -> forall Y, seg_ok (s :: ss) Y -> seg_ok (s :: ss) (X ++ Y).
+Proof.
+  induction X as [|x X IH]; intros HX Y HY; [exact HY|].
+  cbn. apply seg_here; [apply HX; now left|]. apply IH; [|exact HY]. intros y Hy. apply HX. now right.
+Qed.
+
+Lemma seg_mono_head s s' ss L : incl s' s -> seg_ok (s' :: ss) L -> seg_ok (s :: ss) L.
+Proof.
+  intros Hs H. remember (s' :: ss) as sets eqn:E. revert E.
+  induction H as [sets|s0 ss0 e l He Hl IH|s0 ss0 l Hl IH]; intros E.
+  - constructor.
+  - injection E as -> ->. apply seg_here; [now apply Hs|]. now apply IH.
+  - injection E as -> ->. now apply seg_next.
+Qed.
+
+Definition rem_of (f : fut) : list fut := match f with FSeq _ _ cs => cs | _ => [] end.
+Definition seq_state (kd : kind) (f : fut) : Prop := (exists done cs, f = FSeq kd done cs) \/ (exists r, f = FDone r).
+
+(* one poll of the serial loop: what it logs, followed by anything the remaining
+   fields may log serially, is serial for the fields it started from *)
+Lemma seq_seg g kd cs : forall done n f' n' l,
+  seq (poll g) kd done cs n = (f', n', l) ->
+  seq_state kd f' /\
+  forall L, seg_ok (map all_events (rem_of f')) L -> seg_ok (map all_events cs) (evs_of l ++ L).
+Proof.
+  induction cs as [|c r IH]; intros done n f' n' l W.
+  - cbn in W. injection W as <- <- <-. split; [right; eauto|]. intros L HL. exact HL.
+  - apply seq_cons_cases in W as (c' & n1 & l1 & Pc & [(v & l2 & -> & Sr & ->)|[(p & -> & -> & -> & ->)|(_ & -> & -> & ->)]]);
+      destruct (poll_ev g c _ _ _ _ Pc) as [E1 A1]; cbn [map].
+    + destruct (IH _ _ _ _ _ Sr) as [St HL]. split; [exact St|]. intros L H.
+      rewrite evs_of_app, <- app_assoc. apply seg_prefix; [exact E1|]. apply seg_next. now apply HL.
+    + split; [right; eauto|]. intros L H. cbn [rem_of map] in H. inversion H; subst.
+      rewrite app_nil_r. rewrite <- (app_nil_r (evs_of l1)). apply seg_prefix; [exact E1|constructor].
+    + split; [left; eauto|]. intros L H. cbn [rem_of map] in H.
+      apply seg_prefix; [exact E1|]. eapply seg_mono_head; [exact A1|exact H].
+Qed.
+
+Lemma run_st_seg kd cs0 s : forall f n l f' n' l',
+  seq_state kd f ->
+  (forall L, seg_ok (map all_events (rem_of f)) L -> seg_ok (map all_events cs0) (evs_of l ++ L)) ->
+  run_st s (f, n, l) = (f', n', l') ->
+  forall L, seg_ok (map all_events (rem_of f')) L -> seg_ok (map all_events cs0) (evs_of l' ++ L).
+Proof.
+  induction s as [|g s IH]; intros f n l f' n' l' St Inv Run.
+  - cbn in Run. injection Run as <- <- <-. exact Inv.
+  - cbn [run_st] in Run. destruct (poll (Some g) f n) as [[f1 n1] l1] eqn:P1.
+    destruct St as [(done & cs & ->)|(r & ->)].
+    + rewrite poll_FSeq in P1. destruct (seq_seg _ _ _ _ _ _ _ _ P1) as [St1 H1].
+      refine (IH _ _ _ _ _ _ St1 _ Run).
+      intros L HL. rewrite evs_of_app, <- app_assoc. apply Inv. cbn [rem_of]. now apply H1.
+    + cbn in P1. injection P1 as <- <- <-. 
+      refine (IH _ _ _ _ _ _ (or_intror (ex_intro _ r eq_refl)) _ Run).
+      intros L HL. rewrite app_nil_r. now apply Inv.
+Qed.
+
+(* (c): after ANY schedule (complete or not), the event log of a serial root is
+   serial in the root fields *)
+Theorem serial_log kd done cs s f n l :
+  run_log s (FSeq kd done cs) = (f, n, l) -> seg_ok (map all_events cs) (evs_of l).
+Proof.
+  unfold run_log, start. intros Run. destruct (poll None (FSeq kd done cs) 0) as [[f0 n0] l0] eqn:P0.
+  rewrite poll_FSeq in P0. destruct (seq_seg _ _ _ _ _ _ _ _ P0) as [St0 H0].
+  rewrite <- (app_nil_r (evs_of l)).
+  apply (run_st_seg kd cs s _ _ _ _ _ _ St0 H0 Run []). constructor.
+Qed.
+
+(* the boolean test used on the real library's log is complete for seg_ok *)
+Lemma item_eqb_refl a : item_eqb a a = true.
+Proof.
+  assert (P : forall p, path_eqb p p = true).
+  { induction p as [|x p IH]; [reflexivity|]. unfold path_eqb, list_eqb in *. cbn. rewrite IH, andb_true_r.
+    destruct x; cbn; [apply name_eqb_refl|apply N.eqb_refl]. }
+  destruct a; cbn; apply P.
+Qed.
+
+Lemma memi_In e s : In e s -> memi e s = true.
+Proof. intros H. unfold memi. apply existsb_exists. exists e. split; [exact H|apply item_eqb_refl]. Qed.
+
+Lemma seg_ok_tail sets e l : seg_ok sets (e :: l) -> seg_ok sets l.
+Proof.
+  intros H. remember (e :: l) as L eqn:E. revert E.
+  induction H as [sets|s ss e0 l0 He Hl IH|s ss l0 Hl IH]; intros E.
+  - discriminate.
+  - injection E as -> ->. exact Hl.
+  - apply seg_next. now apply IH.
+Qed.
+
+Lemma seg_ok_skip s ss l : seg_ok (s :: ss) l -> seg_ok ss (skipseg s l).
+Proof.
+  intros H. remember (s :: ss) as sets eqn:E. revert E.
+  induction H as [sets|s0 ss0 e l He Hl IH|s0 ss0 l Hl IH]; intros E.
+  - constructor.
+  - injection E as -> ->. cbn [skipseg]. rewrite (memi_In _ _ He). now apply IH.
+  - injection E as -> ->. clear IH. induction l as [|e l IHl]; [constructor|].
+    cbn [skipseg]. destruct (memi e s); [|exact Hl]. apply IHl. eapply seg_ok_tail, Hl.
+Qed.
+
+Lemma seg_ok_serial_okb sets : forall l, seg_ok sets l -> serial_okb sets l = true.
+Proof.
+  induction sets as [|s ss IH]; intros l H.
+  - inversion H. reflexivity.
+  - cbn [serial_okb]. apply IH. now apply seg_ok_skip.
+Qed.
+
+Theorem serial_log_okb kd done cs s f n l :
+  run_log s (FSeq kd done cs) = (f, n, l) -> serial_okb (map all_events cs) (evs_of l) = true.
+Proof. intros H. apply seg_ok_serial_okb. eapply serial_log, H. Qed.
+
+(* ------------------------------------------- the per-case verdict is sound --- *)
+Section value_ind2.
+  Variable P : value -> Prop.
+  Hypothesis Hnull : P VNull.
+  Hypothesis Hint : forall z, P (VInt z).
+  Hypothesis Hfloat : forall b, P (VFloat b).
+  Hypothesis Hstr : forall s, P (VStr s).
+  Hypothesis Hbool : forall b, P (VBool b).
+  Hypothesis Henum : forall n, P (VEnum n).
+  Hypothesis Hvar : forall n, P (VVar n).
+  Hypothesis Hlist : forall l, Forall P l -> P (VList l).
+  Hypothesis Hobj : forall l, Forall (fun kv => P (snd kv)) l -> P (VObj l).
+  Fixpoint value_ind2 (v : value) : P v :=
+    match v with
+    | VNull => Hnull | VInt z => Hint z | VFloat b => Hfloat b | VStr s => Hstr s | VBool b => Hbool b
+    | VEnum n => Henum n | VVar n => Hvar n
+    | VList l => Hlist l ((fix go (l : list value) : Forall P l :=
+                             match l with [] => Forall_nil _ | x :: r => Forall_cons x (value_ind2 x) (go r) end) l)
+    | VObj l => Hobj l ((fix go (l : list (name * value)) : Forall (fun kv => P (snd kv)) l :=
+                           match l with [] => Forall_nil _ | x :: r => Forall_cons x (value_ind2 (snd x)) (go r) end) l)
+    end.
+End value_ind2.
+
+Lemma value_eqb_refl v : value_eqb v v = true.
+Proof.
+  induction v as [|z|b|s|b|n|n|l IH|l IH] using value_ind2; cbn [value_eqb].
+  - reflexivity.
+  - apply Z.eqb_refl.
+  - apply N.eqb_refl.
+  - induction s as [|c s IHs]; [reflexivity|]. unfold list_eqb in *. cbn. now rewrite N.eqb_refl, IHs.
+  - destruct b; reflexivity.
+  - apply name_eqb_refl.
+  - apply name_eqb_refl.
+  - induction IH as [|x r Hx Hr IHr]; [reflexivity|]. now rewrite Hx, IHr.
+  - induction IH as [|[k x] r Hx Hr IHr]; [reflexivity|]. cbn in Hx. now rewrite name_eqb_refl, Hx, IHr.
+Qed.
+
+Lemma count_path_perm p a b : Permutation a b -> count_path p a = count_path p b.
+Proof.
+  unfold count_path. induction 1 as [|x a b H IH|x y a|a b c H1 IH1 H2 IH2]; cbn [fold_right].
+  - reflexivity.
+  - now rewrite IH.
+  - destruct (path_eqb y p), (path_eqb x p); reflexivity.
+  - congruence.
+Qed.
+
+Lemma paths_same_perm a b : Permutation a b -> paths_same a b = true.
+Proof.
+  intros H. unfold paths_same, paths_sub. apply andb_true_intro. split; apply forallb_forall; intros p _; cbv beta;
+    rewrite (count_path_perm p _ _ H); apply N.leb_refl.
+Qed.
+
+Lemma run_serial_okb s t r sets :
+  root_sets t = Some sets -> run s t = Some r -> serial_okb sets (sr_events r) = true.
+Proof.
+  unfold root_sets. destruct t as [| |? ?|kd done cs| |]; try discriminate. intros E. injection E as <-.
+  unfold run, resp_of. destruct (run_log s (FSeq kd done cs)) as [[f n] l] eqn:R.
+  pose proof (serial_log_okb _ _ _ _ _ _ _ R) as H.
+  destruct f as [[v|p]| | | | |]; try discriminate; intros E; injection E as <-; exact H.
+Qed.
+
+(* verdict code 2 ("model breaks the property outside the known classes") cannot occur *)
+Theorem verdict_sound t s m ready :
+  fresh t = true -> known_class t = 0 -> run s t = Some m -> run [] (ungate t) = Some ready ->
+  meets t ready m = true.
+Proof.
+  intros F K Hm Hr. unfold known_class in K. destruct (race_free t) eqn:R; [|destruct (two_failing t); discriminate].
+  destruct (same_as_ready_run t s m F Hm) as (r0 & H0 & D & P). rewrite Hr in H0. injection H0 as <-.
+  unfold meets. rewrite D, value_eqb_refl, (paths_same_perm _ _ (P R)). cbn [andb].
+  destruct (root_sets t) as [sets|] eqn:RS; [|reflexivity]. exact (run_serial_okb _ _ _ _ RS Hm).
+Qed.
+
+(* ------------------------------------------------------------- witnesses --- *)
+(* names: types 10 Query, 11 A, 15 Int, 16 Float, 17 String; fields 20 a, 23 id, 24 name, 25 score *)
+Definition x_fields : list (name * ty) :=
+  [ (20, TNamed 11); (23, TNonNull (TNamed 15)); (24, TNamed 17); (25, TNonNull (TNamed 16)) ].
+Definition x_schema : schema :=
+  {| s_types := [ (10, DObject x_fields []); (11, DObject x_fields []); (15, DScalar 0); (16, DScalar 1); (17, DScalar 2) ];
+     s_query := 10; s_mutation := Some 10; s_tname := [(10, [81]); (11, [65])] |}.
+Definition x_world (root a : list (name * outv)) : world :=
+  {| w_nodes := [ (0, {| n_ty := 10; n_fields := root |}); (1, {| n_ty := 10; n_fields := root |});
+                  (2, {| n_ty := 11; n_fields := a |}) ];
+     w_defaults := [(25, OFloat 4609434218613702656)]; w_idname := 23 |}.
+Definition x_fld (nm : name) (sub : list selection) : selection := SField None nm [] [] sub.
+Definition x_doc (ty : optype) (sels : list selection) : document :=
+  {| doc_ops := [ {| op_name := None; op_ty := ty; op_vars := []; op_dirs := []; op_sels := sels |} ]; doc_frags := [] |}.
+Definition x_tree (w : world) (d : document) (gated : list path) : option fut :=
+  match build quirks_today x_schema w d None [] gated 50 with Ok t => Some t | _ => None end.
+
+(* { id score }, both resolvers fail, both gated *)
+Definition x_race : option fut :=
+  x_tree (x_world [(23, OErr); (25, OErr)] []) (x_doc OpQuery [x_fld 23 []; x_fld 25 []]) [[PF 23]; [PF 25]].
+(* { a { id } score }, a.id and score fail, both gated *)
+Definition x_drop : option fut :=
+  x_tree (x_world [(20, ORef 2); (25, OErr)] [(23, OErr)]) (x_doc OpQuery [x_fld 20 [x_fld 23 []]; x_fld 25 []])
+         [[PF 20; PF 23]; [PF 25]].
+(* { a { id } k: a { id } name }: two errors caught at nullable positions, all five resolvers gated *)
+Definition x_caught : option fut :=
+  x_tree (x_world [(20, ORef 2); (24, OStr [110])] [(23, OErr)])
+         (x_doc OpQuery [x_fld 20 [x_fld 23 []]; SField (Some 30) 20 [] [] [x_fld 23 []]; x_fld 24 []])
+         [[PF 20]; [PF 30]; [PF 20; PF 23]; [PF 30; PF 23]; [PF 24]].
+(* mutation { a { id name } k: a { id } name } *)
+Definition x_mut : option fut :=
+  x_tree (x_world [(20, ORef 2); (24, OStr [110])] [])
+         (x_doc OpMutation [x_fld 20 [x_fld 23 []; x_fld 24 []]; SField (Some 30) 20 [] [] [x_fld 23 []]; x_fld 24 []])
+         [[PF 20]; [PF 20; PF 23]; [PF 20; PF 24]; [PF 30; PF 23]].
+
+Definition errors_under (s : list nat) (t : option fut) : option (list path) :=
+  match t with Some t => match run s t with Some r => Some (sr_errors r) | None => None end | None => None end.
+Definition data_under (s : list nat) (t : option fut) : option value :=
+  match t with Some t => match run s t with Some r => Some (sr_data r) | None => None end | None => None end.
+Definition class_of (t : option fut) : option N := match t with Some t => Some (known_class t) | None => None end.
+
+Lemma w_uncaught_race :
+  errors_under [0%nat] x_race = Some [[PF 23]] /\ errors_under [1%nat] x_race = Some [[PF 25]] /\
+  class_of x_race = Some 1.
+Proof. repeat split; vm_compute; reflexivity. Qed.
+
+Lemma w_sibling_drop :
+  errors_under [0%nat; 1%nat] x_drop = Some [[PF 25]; [PF 20; PF 23]] /\
+  errors_under [1%nat] x_drop = Some [[PF 25]] /\
+  class_of x_drop = Some 2.
+Proof. repeat split; vm_compute; reflexivity. Qed.
+
+(* non-vacuity: a race-free tree with five gates and errors; two fair schedules
+   give the same data and the two caught errors in different ORDER *)
+Lemma w_caught_reordered :
+  class_of x_caught = Some 0 /\
+  errors_under [0; 1; 3; 2; 4]%nat x_caught = Some [[PF 20; PF 23]; [PF 30; PF 23]] /\
+  errors_under [1; 0; 3; 2; 4]%nat x_caught = Some [[PF 30; PF 23]; [PF 20; PF 23]] /\
+  data_under [0; 1; 3; 2; 4]%nat x_caught = Some (VObj [(20, VNull); (30, VNull); (24, VStr [110])]) /\
+  data_under [1; 0; 3; 2; 4]%nat x_caught = Some (VObj [(20, VNull); (30, VNull); (24, VStr [110])]) /\
+  errors_under [0; 1]%nat x_caught = None.     (* an unfair schedule: resolvers still waiting *)
+Proof. repeat split; vm_compute; reflexivity. Qed.
+
+Definition events_under (s : list nat) (t : option fut) : option (list item) :=
+  match t with Some t => let '(_, _, l) := run_log s t in Some (evs_of l) | None => None end.
+
+(* non-vacuity of the serial theorem: the two gated resolvers below the first root
+   field complete in either order; the second root field starts after both *)
+Lemma w_serial :
+  events_under [0; 2; 1; 3]%nat x_mut =
+    Some [IStart [PF 20]; IEnd [PF 20]; IStart [PF 20; PF 23]; IStart [PF 20; PF 24];
+          IEnd [PF 20; PF 24]; IEnd [PF 20; PF 23];
+          IStart [PF 30]; IEnd [PF 30]; IStart [PF 30; PF 23]; IEnd [PF 30; PF 23];
+          IStart [PF 24]; IEnd [PF 24]] /\
+  events_under [0; 1; 2; 3]%nat x_mut =
+    Some [IStart [PF 20]; IEnd [PF 20]; IStart [PF 20; PF 23]; IStart [PF 20; PF 24];
+          IEnd [PF 20; PF 23]; IEnd [PF 20; PF 24];
+          IStart [PF 30]; IEnd [PF 30]; IStart [PF 30; PF 23]; IEnd [PF 30; PF 23];
+          IStart [PF 24]; IEnd [PF 24]].
+Proof. split; vm_compute; reflexivity. Qed.
+
+(* ----------------------------------- serial order, stated on positions --- *)
+Definition before {A} (x y : A) (l : list A) : Prop := exists l1 l2 l3, l = l1 ++ x :: l2 ++ y :: l3.
+Definition disjoint_sets (sets : list (list item)) : Prop :=
+  forall i j e, i <> j -> In e (nth i sets []) -> In e (nth j sets []) -> False.
+
+Lemma seg_ok_in sets l : seg_ok sets l -> forall e, In e l -> exists k, In e (nth k sets []).
+Proof.
+  induction 1 as [sets|s ss e0 l He Hl IH|s ss l Hl IH]; intros e Hin.
+  - destruct Hin.
+  - destruct Hin as [<-|Hin]; [now exists 0%nat|now apply IH].
+  - destruct (IH e Hin) as [k Hk]. now exists (S k).
+Qed.
+
+Lemma disjoint_tail s ss : disjoint_sets (s :: ss) -> disjoint_sets ss.
+Proof. intros D i j e Hij Hi Hj. apply (D (S i) (S j) e); auto. Qed.
+
+Lemma before_in {A} (x y : A) l : before x y l -> In x l /\ In y l.
+Proof.
+  intros (l1 & l2 & l3 & ->). split; apply in_or_app; right; [now left|].
+  right. apply in_or_app. right. now left.
+Qed.
+
+(* no event of a later root field precedes an event of an earlier one *)
+Lemma seg_ok_order sets l :
+  seg_ok sets l -> disjoint_sets sets ->
+  forall i j x y, (i < j)%nat -> In x (nth i sets []) -> In y (nth j sets []) -> ~ before y x l.
+Proof.
+  induction 1 as [sets|s ss e l He Hl IH|s ss l Hl IH]; intros D i j x y Hij Hx Hy B.
+  - destruct B as (l1 & l2 & l3 & E). destruct l1; discriminate.
+  - destruct B as (l1 & l2 & l3 & E). destruct l1 as [|e1 l1].
+    + cbn in E. injection E as E1 E2. subst e l. apply (D 0%nat j y); [lia|exact He|exact Hy].
+    + cbn in E. injection E as E1 E2. subst e1 l. apply (IH D i j x y Hij Hx Hy). now exists l1, l2, l3.
+  - destruct i as [|i].
+    + destruct (before_in _ _ _ B) as [_ Hxl]. destruct (seg_ok_in _ _ Hl x Hxl) as [k Hk].
+      apply (D 0%nat (S k) x); [lia|exact Hx|exact Hk].
+    + destruct j as [|j]; [lia|]. apply (IH (disjoint_tail _ _ D) i j x y); [lia|exact Hx|exact Hy|exact B].
+Qed.
+
+Theorem serial_order kd done cs s f n l :
+  run_log s (FSeq kd done cs) = (f, n, l) -> disjoint_sets (map all_events cs) ->
+  forall i j x y, (i < j)%nat ->
+    In x (all_events (nth i cs (FDone (IVal VNull)))) -> In y (all_events (nth j cs (FDone (IVal VNull)))) ->
+    ~ before y x (evs_of l).
+Proof.
+  intros R D i j x y Hij Hx Hy. apply (seg_ok_order _ _ (serial_log _ _ _ _ _ _ _ R) D i j x y Hij).
+  - change (@nil item) with (all_events (FDone (IVal VNull))). now rewrite map_nth.
+  - change (@nil item) with (all_events (FDone (IVal VNull))). now rewrite map_nth.
+Qed.
+
+(* --------------------------------------- every tree has a fair schedule --- *)
+(* (so the theorems above, which quantify over the schedules that let the request
+   complete, are not vacuous for any tree) *)
+Fixpoint nres (f : fut) : nat :=
+  match f with
+  | FDone _ => 0
+  | FRes _ _ _ k => S (nres k)
+  | FAll _ cs => list_sum (map nres cs)
+  | FSeq _ _ cs => list_sum (map nres cs)
+  | FCatch f1 => nres f1
+  | FMapErr _ f1 => nres f1
+  end.
+Definition is_done (f : fut) : bool := match f with FDone _ => true | _ => false end.
+Definition is_val (f : fut) : bool := match f with FDone (IVal _) => true | _ => false end.
+(* pending after a poll: the frontier consists of registered gates *)
+Fixpoint live (f : fut) : bool :=
+  match f with
+  | FDone _ => false
+  | FRes _ _ ph _ => match ph with PWait _ => true | PNew => false end
+  | FAll _ cs => forallb (fun c => live c || is_val c) cs && existsb live cs
+  | FSeq _ _ cs => match cs with c :: _ => live c | [] => false end
+  | FCatch f1 => live f1
+  | FMapErr _ f1 => live f1
+  end.
+
+Definition settled (f : fut) : Prop := is_done f = true \/ live f = true.
+
+Lemma settled_not_done f : settled f -> (forall x, f <> FDone x) -> live f = true.
+Proof. intros [D|L] H; [|exact L]. destruct f; try discriminate. now destruct (H r). Qed.
+
+Lemma walk_live g cs :
+  Forall (fun c => forall n f' n' l, poll g c n = (f', n', l) -> settled f') cs ->
+  forall n cs' n' l, walk (poll g) cs n = (cs', None, n', l) ->
+    forallb (fun c => live c || is_val c) cs' = true.
+Proof.
+  induction 1 as [|c r Hc Hr IH]; intros n cs' n' l W.
+  - cbn in W. injection W as <- <- <-. reflexivity.
+  - apply walk_cons_cases in W as (c' & n1 & l1 & Pc & [(p & _ & _ & E & _)|(NF & r' & l2 & Wr & -> & ->)]); [discriminate|].
+    cbn [forallb]. rewrite (IH _ _ _ _ Wr), andb_true_r.
+    destruct (Hc _ _ _ _ Pc) as [D|L]; [|now rewrite L].
+    destruct c' as [[v|p]| | | | |]; try discriminate; [now rewrite orb_true_r|now destruct (NF p)].
+Qed.
+
+Lemma not_all_done_live cs :
+  forallb (fun c => live c || is_val c) cs = true -> all_done cs = None -> existsb live cs = true.
+Proof.
+  induction cs as [|c r IH]; intros F A; [discriminate|].
+  cbn [forallb existsb] in *. apply andb_prop in F as [Fc Fr].
+  destruct (live c) eqn:L; [reflexivity|]. cbn in Fc |- *.
+  destruct c as [[v|p]| | | | |]; try discriminate. cbn [all_done] in A.
+  destruct (all_done r); [discriminate|]. now apply IH.
+Qed.
+
+Lemma seq_live g kd cs :
+  Forall (fun c => forall n f' n' l, poll g c n = (f', n', l) -> settled f') cs ->
+  forall done n f' n' l, seq (poll g) kd done cs n = (f', n', l) -> settled f'.
+Proof.
+  induction 1 as [|c r Hc Hr IH]; intros done n f' n' l W.
+  - cbn in W. injection W as <- <- <-. now left.
+  - apply seq_cons_cases in W as (c' & n1 & l1 & Pc & [(v & l2 & -> & Sr & ->)|[(p & -> & -> & -> & ->)|(ND & -> & -> & ->)]]).
+    + exact (IH _ _ _ _ _ Sr).
+    + now left.
+    + right. cbn [live]. exact (settled_not_done _ (Hc _ _ _ _ Pc) ND).
+Qed.
+
+Lemma poll_settled g : forall f n f' n' l, poll g f n = (f', n', l) -> settled f'.
+Proof.
+  induction f as [r|p gt ph k IH|kd cs IH|kd done cs IH|f1 IH|p f1 IH] using fut_ind'; intros n f' n' l Pf.
+  - cbn in Pf. injection Pf as <- <- <-. now left.
+  - rewrite poll_FRes in Pf. destruct ph as [|id].
+    + destruct gt.
+      * injection Pf as <- <- <-. now right.
+      * destruct (poll g k n) as [[k' n1] l1] eqn:Pk. injection Pf as <- <- <-. exact (IH _ _ _ _ Pk).
+    + destruct (opened g id).
+      * destruct (poll g k n) as [[k' n1] l1] eqn:Pk. injection Pf as <- <- <-. exact (IH _ _ _ _ Pk).
+      * injection Pf as <- <- <-. now right.
+  - rewrite poll_FAll in Pf. destruct (walk (poll g) cs n) as [[[cs' e] n1] l1] eqn:W.
+    destruct e as [p|]; [injection Pf as <- <- <-; now left|].
+    pose proof (walk_live g cs IH _ _ _ _ W) as F.
+    destruct (all_done cs') eqn:AD; injection Pf as <- <- <-; [now left|].
+    right. cbn [live]. now rewrite F, (not_all_done_live _ F AD).
+  - rewrite poll_FSeq in Pf. exact (seq_live g kd cs IH _ _ _ _ _ Pf).
+  - rewrite poll_FCatch in Pf. destruct (poll g f1 n) as [[f2 n1] l1] eqn:P1. pose proof (IH _ _ _ _ P1) as S2.
+    destruct f2 as [[v|p]| | | | |]; injection Pf as <- <- <-; try (now left);
+      (right; cbn [live]; apply (settled_not_done _ S2); intros x; discriminate).
+  - rewrite poll_FMapErr in Pf. destruct (poll g f1 n) as [[f2 n1] l1] eqn:P1. pose proof (IH _ _ _ _ P1) as S2.
+    destruct f2 as [[v|p0]| | | | |]; injection Pf as <- <- <-; try (now left);
+      (right; cbn [live]; apply (settled_not_done _ S2); intros x; discriminate).
+Qed.
+
+Lemma live_waiting f : live f = true -> waiting f <> [].
+Proof.
+  induction f as [r|p gt ph k IH|kd cs IH|kd done cs IH|f1 IH|p f1 IH] using fut_ind'; cbn [live waiting]; intros L.
+  - discriminate.
+  - destruct ph; [discriminate|]. discriminate.
+  - apply andb_prop in L as [_ E]. apply existsb_exists in E as (c & Hc & Lc).
+    rewrite Forall_forall in IH. specialize (IH c Hc Lc). intros Z. apply IH.
+    destruct (waiting c) as [|x w] eqn:Wc; [reflexivity|].
+    assert (In x (flat_map waiting cs)) by (apply in_flat_map; exists c; split; [exact Hc|rewrite Wc; now left]).
+    rewrite Z in H. destruct H.
+  - destruct cs as [|c r]; [discriminate|]. inversion IH; subst. auto.
+  - now apply IH.
+  - now apply IH.
+Qed.
+
+Ltac nsum := cbn [nres] in *; unfold list_sum in *; cbn [nres map fold_right flat_map] in *.
+
+Definition le_inv (g : option nat) (f : fut) : Prop :=
+  forall n f' n' l, poll g f n = (f', n', l) -> (nres f' <= nres f)%nat.
+
+Lemma walk_le g cs :
+  Forall (le_inv g) cs ->
+  forall n cs' e n' l, walk (poll g) cs n = (cs', e, n', l) ->
+    (list_sum (map nres cs') <= list_sum (map nres cs))%nat.
+Proof.
+  induction 1 as [|c r Hc Hr IH]; intros n cs' e n' l W.
+  - cbn in W. injection W as <- <- <- <-. lia.
+  - apply walk_cons_cases in W as (c' & n1 & l1 & Pc & [(p & -> & -> & _)|(_ & r' & l2 & Wr & -> & ->)]);
+      specialize (Hc _ _ _ _ Pc); nsum.
+    + lia.
+    + specialize (IH _ _ _ _ _ Wr). lia.
+Qed.
+
+Lemma seq_le g kd cs :
+  Forall (le_inv g) cs ->
+  forall done n f' n' l, seq (poll g) kd done cs n = (f', n', l) -> (nres f' <= list_sum (map nres cs))%nat.
+Proof.
+  induction 1 as [|c r Hc Hr IH]; intros done n f' n' l W.
+  - cbn in W. injection W as <- <- <-. cbn. lia.
+  - apply seq_cons_cases in W as (c' & n1 & l1 & Pc & [(v & l2 & -> & Sr & ->)|[(p & -> & -> & -> & ->)|(_ & -> & -> & ->)]]);
+      specialize (Hc _ _ _ _ Pc); nsum.
+    + specialize (IH _ _ _ _ _ Sr). lia.
+    + lia.
+    + lia.
+Qed.
+
+Lemma poll_le g : forall f, le_inv g f.
+Proof.
+  induction f as [r|p gt ph k IH|kd cs IH|kd done cs IH|f1 IH|p f1 IH] using fut_ind'; intros n f' n' l Pf.
+  - cbn in Pf. injection Pf as <- <- <-. lia.
+  - rewrite poll_FRes in Pf. cbn [nres]. destruct ph as [|id].
+    + destruct gt.
+      * injection Pf as <- <- <-. cbn [nres]. lia.
+      * destruct (poll g k n) as [[k' n1] l1] eqn:Pk. injection Pf as <- <- <-. specialize (IH _ _ _ _ Pk). lia.
+    + destruct (opened g id).
+      * destruct (poll g k n) as [[k' n1] l1] eqn:Pk. injection Pf as <- <- <-. specialize (IH _ _ _ _ Pk). lia.
+      * injection Pf as <- <- <-. cbn [nres]. lia.
+  - rewrite poll_FAll in Pf. destruct (walk (poll g) cs n) as [[[cs' e] n1] l1] eqn:W.
+    pose proof (walk_le g cs IH _ _ _ _ _ W) as H. cbn [nres].
+    destruct e as [p|]; [|destruct (all_done cs')]; injection Pf as <- <- <-; cbn [nres]; lia.
+  - rewrite poll_FSeq in Pf. cbn [nres]. exact (seq_le g kd cs IH _ _ _ _ _ Pf).
+  - rewrite poll_FCatch in Pf. destruct (poll g f1 n) as [[f2 n1] l1] eqn:P1. specialize (IH _ _ _ _ P1).
+    destruct f2 as [[v|p]| | | | |]; injection Pf as <- <- <-; cbn [nres] in *; lia.
+  - rewrite poll_FMapErr in Pf. destruct (poll g f1 n) as [[f2 n1] l1] eqn:P1. specialize (IH _ _ _ _ P1).
+    destruct f2 as [[v|p0]| | | | |]; injection Pf as <- <- <-; cbn [nres] in *; lia.
+Qed.
+
+(* opening a gate that is waiting makes progress *)
+Definition lt_inv (g0 : nat) (f : fut) : Prop :=
+  forall n f' n' l, live f = true -> In g0 (waiting f) -> poll (Some g0) f n = (f', n', l) ->
+    (nres f' < nres f)%nat.
+
+Lemma waiting_nres f : waiting f <> [] -> (1 <= nres f)%nat.
+Proof.
+  induction f as [r|p gt ph k IH|kd cs IH|kd done cs IH|f1 IH|p f1 IH] using fut_ind'; cbn [waiting nres]; intros W.
+  - now destruct W.
+  - lia.
+  - induction IH as [|c r Hc Hr IHr]; [now destruct W|]. nsum.
+    destruct (waiting c) eqn:Wc.
+    + cbn in W. specialize (IHr W). lia.
+    + assert (1 <= nres c)%nat by (apply Hc; discriminate). lia.
+  - destruct cs as [|c r]; [now destruct W|]. inversion IH; subst. nsum.
+    assert (1 <= nres c)%nat by auto. lia.
+  - auto.
+  - auto.
+Qed.
+
+Lemma walk_lt g0 cs :
+  Forall (lt_inv g0) cs ->
+  forallb (fun c => live c || is_val c) cs = true -> In g0 (flat_map waiting cs) ->
+  forall n cs' n' l, walk (poll (Some g0)) cs n = (cs', None, n', l) ->
+    (list_sum (map nres cs') < list_sum (map nres cs))%nat.
+Proof.
+  induction 1 as [|c r Hc Hr IH]; intros F I n cs' n' l W.
+  - destruct I.
+  - cbn [forallb] in F. apply andb_prop in F as [Fc Fr].
+    apply walk_cons_cases in W as (c' & n1 & l1 & Pc & [(p & _ & _ & E & _)|(_ & r' & l2 & Wr & -> & ->)]); [discriminate|].
+    pose proof (poll_le _ c _ _ _ _ Pc) as Lc.
+    assert (Forall (le_inv (Some g0)) r) as Ler by (apply Forall_forall; intros; apply poll_le).
+    pose proof (walk_le _ r Ler _ _ _ _ _ Wr) as Lr. nsum.
+    apply in_app_or in I as [I|I].
+    + assert (live c = true).
+      { destruct (live c); [reflexivity|]. cbn in Fc. destruct c as [[v|p]| | | | |]; try discriminate. destruct I. }
+      specialize (Hc _ _ _ _ H I Pc). lia.
+    + specialize (IH Fr I _ _ _ _ Wr). lia.
+Qed.
+
+Lemma poll_lt g0 : forall f, lt_inv g0 f.
+Proof.
+  induction f as [r|p gt ph k IH|kd cs IH|kd done cs IH|f1 IH|p f1 IH] using fut_ind'; intros n f' n' l L I Pf.
+  - discriminate.
+  - cbn [live waiting] in L, I. destruct ph as [|id]; [discriminate|]. destruct I as [<-|[]].
+    rewrite poll_FRes in Pf. cbn [opened] in Pf. rewrite Nat.eqb_refl in Pf.
+    destruct (poll (Some id) k n) as [[k' n1] l1] eqn:Pk. injection Pf as <- <- <-.
+    pose proof (poll_le _ k _ _ _ _ Pk). cbn [nres]. lia.
+  - cbn [live waiting] in L, I. apply andb_prop in L as [F _].
+    assert (1 <= nres (FAll kd cs))%nat as Pos.
+    { apply waiting_nres. cbn [waiting]. intros Z. rewrite Z in I. destruct I. }
+    rewrite poll_FAll in Pf. destruct (walk (poll (Some g0)) cs n) as [[[cs' e] n1] l1] eqn:W.
+    destruct e as [p|]; [injection Pf as <- <- <-; cbn [nres] in *; lia|].
+    pose proof (walk_lt g0 cs IH F I _ _ _ _ W) as H.
+    destruct (all_done cs'); injection Pf as <- <- <-; cbn [nres] in *; lia.
+  - cbn [live waiting] in L, I. destruct cs as [|c r]; [discriminate|]. inversion IH as [|? ? Hc Hr]; subst.
+    rewrite poll_FSeq in Pf.
+    apply seq_cons_cases in Pf as (c' & n1 & l1 & Pc & [(v & l2 & -> & Sr & ->)|[(p & -> & -> & -> & ->)|(_ & -> & -> & ->)]]);
+      specialize (Hc _ _ _ _ L I Pc); nsum.
+    + assert (Forall (le_inv (Some g0)) r) as Ler by (apply Forall_forall; intros; apply poll_le).
+      pose proof (seq_le _ kd r Ler _ _ _ _ _ Sr). nsum. lia.
+    + lia.
+    + lia.
+  - cbn [live waiting] in L, I. rewrite poll_FCatch in Pf. destruct (poll (Some g0) f1 n) as [[f2 n1] l1] eqn:P1.
+    specialize (IH _ _ _ _ L I P1).
+    destruct f2 as [[v|p]| | | | |]; injection Pf as <- <- <-; cbn [nres] in *; lia.
+  - cbn [live waiting] in L, I. rewrite poll_FMapErr in Pf. destruct (poll (Some g0) f1 n) as [[f2 n1] l1] eqn:P1.
+    specialize (IH _ _ _ _ L I P1).
+    destruct f2 as [[v|p0]| | | | |]; injection Pf as <- <- <-; cbn [nres] in *; lia.
+Qed.
+
+Lemma complete_from k : forall f n l, (nres f <= k)%nat -> settled f ->
+  exists s f' n' l', run_st s (f, n, l) = (f', n', l') /\ is_done f' = true.
+Proof.
+  induction k as [|k IH]; intros f n l Hk St.
+  - destruct St as [D|L]; [exists [], f, n, l; auto|].
+    pose proof (waiting_nres f (live_waiting f L)). lia.
+  - destruct St as [D|L]; [exists [], f, n, l; auto|].
+    destruct (waiting f) as [|g0 w] eqn:Wf; [now destruct (live_waiting f L)|].
+    destruct (poll (Some g0) f n) as [[f1 n1] l1] eqn:P1.
+    assert (In g0 (waiting f)) as I by (rewrite Wf; now left).
+    pose proof (poll_lt g0 f _ _ _ _ L I P1) as Lt.
+    destruct (IH f1 n1 (l ++ l1)) as (s & f' & n' & l' & R & D); [lia|exact (poll_settled _ _ _ _ _ _ P1)|].
+    exists (g0 :: s), f', n', l'. split; [|exact D]. cbn [run_st]. now rewrite P1.
+Qed.
+
+Theorem fair_schedule_exists t : exists s r, run s t = Some r.
+Proof.
+  unfold run, run_log, start. destruct (poll None t 0) as [[f0 n0] l0] eqn:P0.
+  destruct (complete_from (nres f0) f0 n0 l0 (le_n _) (poll_settled _ _ _ _ _ _ P0)) as (s & f' & n' & l' & R & D).
+  exists s. rewrite R. destruct f' as [[v|p]| | | | |]; try discriminate; cbn; eauto.
 Qed.
